@@ -108,6 +108,13 @@ func (p *parser) advance() bool {
 			// ignore
 
 		} else if char == '#' {
+			// a comment behind something else on its line documents nothing
+			trailing := false
+			for _, c := range p.input[p.lineStart : p.position-1] {
+				if c != ' ' && c != '\t' && c != '\r' {
+					trailing = true
+				}
+			}
 			p.next()
 			if p.position > len(p.input) || p.input[p.position-1] != ' ' {
 				// only a single space after '#' is not part of the comment text
@@ -130,11 +137,15 @@ func (p *parser) advance() bool {
 				text = text[:len(text)-1]
 			}
 			p.lastComment.WriteString(text)
+			if trailing {
+				p.lastComment.Reset()
+			}
 			p.next()
 			if p.position > len(p.input) {
 				// comment ended at end of input, there was no newline to consume
 				p.backup()
 			}
+			p.lineStart = p.position
 
 		} else {
 			p.backup()
